@@ -17,6 +17,24 @@ def fam(name, procs, init_slots):
     return dict(name=name, procs=procs, init=init_slots, maxslots=init_slots + 2 * len(procs))
 
 
+# Scripted scenarios for windows that need more processes than TLC can explore exhaustively: each entry is a
+# label-aligned script ("task>>fn|kind|k" = run the task until it is suspended for the k-th time in front of that
+# operation).  The recorded traces are still validated against CounterFile.tla and judged by CounterFileObs.tla.
+DEEP = dict(name='deepremap', procs=[('pA', 'n1'), ('pC', 'n3'), ('pB', 'n2'), ('pD', 'n6'), ('pE', 'n7'), ('pF', 'n4')], init=5, maxslots=5 + 8, scripted=True)
+DEEP_SCRIPTS = [
+    # pA looks n1 up with a mapping that is two growths behind: the file is extended twice while pA is inside
+    # newCounter's remap loop (second failure of the lookup after the first remap)
+    ['pC>>done|x|1', 'pB>>done|x|1', 'pA>>(*mappedFile).lookup<(*mappedFile).newCounter|Uint32.Load|2',
+     'pD>>done|x|1', 'pE>>done|x|1', 'pF>>done|x|1', 'pA>>done|x|1'],
+    # the same with pA parked right after it read the allocation limit
+    ['pC>>done|x|1', 'pB>>done|x|1', 'pA>>openMapped<(*mappedFile).newCounter|os.OpenFile|1',
+     'pD>>done|x|1', 'pE>>done|x|1', 'pF>>done|x|1', 'pA>>done|x|1'],
+    # ... and parked between the reopen and the mmap
+    ['pC>>done|x|1', 'pB>>done|x|1', 'pA>>openMapped<(*mappedFile).newCounter|file.Stat|1',
+     'pD>>done|x|1', 'pE>>done|x|1', 'pF>>done|x|1', 'pA>>done|x|1'],
+]
+
+
 def families():
     small = [
         fam('same2', [('p1', 'n1'), ('p2', 'n1')], 3),
@@ -42,8 +60,8 @@ def mc_module(f, base='CounterFile', name='MCCounterFile', extra=''):
 EXTENDS %s
 MCProcs == {%s}
 MCNameOf == (%s)
-MCNames == {"n1", "n2", "n3"}
-MCBucketOf == ("n1" :> "b1" @@ "n2" :> "b1" @@ "n3" :> "b2")
+MCNames == {"n1", "n2", "n3", "n4", "n6", "n7"}
+MCBucketOf == ("n1" :> "b1" @@ "n2" :> "b1" @@ "n3" :> "b2" @@ "n4" :> "b1" @@ "n6" :> "b3" @@ "n7" :> "b3")
 %s
 ====
 ''' % (name, base, ', '.join('"%s"' % p for p in ps), ' @@ '.join('"%s" :> "%s"' % p for p in f['procs']), extra)
@@ -51,7 +69,7 @@ MCBucketOf == ("n1" :> "b1" @@ "n2" :> "b1" @@ "n3" :> "b2")
 
 def mc_cfg(f, spec='Spec', invariants=(), props=(), kill=True, deadlock=False):
     s = ('SPECIFICATION %s\nCONSTANTS\n Procs <- MCProcs\n NameOf <- MCNameOf\n Names <- MCNames\n BucketOf <- MCBucketOf\n'
-         ' Buckets = {"b1", "b2"}\n K = %d\n InitSlots = %d\n MaxSlots = %d\n MaxPages = 8\n MaxTries = 10\n AllowKill = %s\n FixF16 = TRUE\n') % (
+         ' Buckets = {"b1", "b2", "b3"}\n K = %d\n InitSlots = %d\n MaxSlots = %d\n MaxPages = 8\n MaxTries = 10\n AllowKill = %s\n FixF16 = TRUE\n') % (
         spec, K, f['init'], f['maxslots'], 'TRUE' if kill else 'FALSE')
     if invariants:
         s += 'INVARIANTS ' + ' '.join(invariants) + '\n'
@@ -156,7 +174,15 @@ def run(ctx):
             model_results['%s/%s' % (f['name'], onames[name])] = 'reachable (%d steps)' % len(sched)
             for fin in ('stick', 'rr', 'random', 'randomkill'):
                 add_run(f, sched, fin, onames[name])
+    fams = fams + [DEEP]
+    for scr in DEEP_SCRIPTS:
+        for fin in ('stick', 'rr'):
+            add_run(DEEP, scr, fin, 'deep-remap script')
+    for k in range(ctx.pick(20, 200)):
+        add_run(DEEP, [], 'random', 'random')
     for f in fams:
+        if f.get('scripted'):
+            continue
         for k in range(ctx.pick(40, 400)):
             add_run(f, [], 'randomkill' if k % 2 else 'random', 'random')
         add_run(f, [], 'rr', 'rr')
@@ -165,7 +191,7 @@ def run(ctx):
     if ctx.replay:
         det = json.load(open(ctx.replay))['detail']
         r0 = det['run']
-        fam0 = [f for f in small + big if f['name'] == r0['family']][0]
+        fam0 = [f for f in small + big + [DEEP] if f['name'] == r0['family']][0]
         if fam0 not in fams:
             fams.append(fam0)
         sched0 = det.get('schedule') or r0['schedule']
@@ -208,11 +234,11 @@ def run(ctx):
         procs = {p['name']: p['ctr'] for p in runs[k - 1]['procs']}
         for o in obs[k]:
             lines.append({'run': k, 'i': o['i'], 'size': o['size'], 'limit': o['limit'], 'head': o['head'], 'rec': o['rec'], 'begun': o['begun'],
-                          'problems': o['problems'], 'final': False, 'survivors': {'n1': 0, 'n2': 0, 'n3': 0}})
+                          'problems': o['problems'], 'final': False, 'survivors': {'n1': 0, 'n2': 0, 'n3': 0, 'n4': 0, 'n6': 0, 'n7': 0}})
         if res['status'] == 'ok' and lines:
             last = lines[-1]
             last['final'] = True
-            surv = {'n1': 0, 'n2': 0, 'n3': 0}
+            surv = {'n1': 0, 'n2': 0, 'n3': 0, 'n4': 0, 'n6': 0, 'n7': 0}
             for p, fin in res['finished'].items():
                 if fin and not res.get('pending', {}).get(p):
                     surv[procs[p]] += 1
